@@ -2,6 +2,12 @@ use crate::error::{ToSqlError, ToSqlResult};
 
 pub trait SqlBuilder {
     fn to_sql(self: Box<Self>) -> ToSqlResult<String>;
+
+    /// True when the emitted text has an operator at its top level that binds
+    /// looser than a `::` cast, so a cast of it has to parenthesise it.
+    fn needs_parens_for_cast(&self) -> bool {
+        false
+    }
 }
 
 pub trait IntoSqlBuilder {
@@ -55,6 +61,10 @@ impl SqlBuilder for BinaryOperationBuilder {
             self.operator.to_sql()?,
             self.rhs.to_sql()?
         ))
+    }
+
+    fn needs_parens_for_cast(&self) -> bool {
+        true
     }
 }
 
@@ -139,11 +149,14 @@ pub struct CastBuilder {
 
 impl SqlBuilder for CastBuilder {
     fn to_sql(self: Box<Self>) -> ToSqlResult<String> {
-        Ok(format!(
-            "{}::{}",
-            self.value.to_sql()?,
-            self.cast_type.to_sql()?
-        ))
+        let parens = self.value.needs_parens_for_cast();
+        let value = self.value.to_sql()?;
+
+        Ok(if parens {
+            format!("({})::{}", value, self.cast_type.to_sql()?)
+        } else {
+            format!("{}::{}", value, self.cast_type.to_sql()?)
+        })
     }
 }
 
@@ -187,6 +200,10 @@ impl SqlBuilder for JsonMemberAccessBuilder {
                 self.field.to_sql()?
             ))
         }
+    }
+
+    fn needs_parens_for_cast(&self) -> bool {
+        true
     }
 }
 
